@@ -25,6 +25,12 @@ Theorem C08_shuffle_nonmultiple : forall esz x,
 Proof. exact shuffle_nonmultiple. Qed.
 Print Assumptions C08_shuffle_nonmultiple.
 
+(* element size 0 is an error everywhere (the writer used to divide by zero) *)
+Theorem C08_shuffle_zero_esz : forall x,
+  x <> [] -> shuffle_apply 0 x = Err /\ shuffle_remove 0 x = Err /\ reader_unshuffle [0] x = Err.
+Proof. exact shuffle_esz0_err. Qed.
+Print Assumptions C08_shuffle_zero_esz.
+
 Theorem C08_fletcher_roundtrip : forall x, fletcher_verify (fletcher_apply x) = Ok x.
 Proof. exact fletcher_roundtrip. Qed.
 Print Assumptions C08_fletcher_roundtrip.
@@ -84,3 +90,14 @@ Theorem C08_pipeline_detects :
   reader_apply inflate (descr (pre ++ [FFletcher])) (upd i b (fletcher_apply z)) = Err.
 Proof. exact pipeline_detects. Qed.
 Print Assumptions C08_pipeline_detects.
+
+(* The same statement for Fletcher-32 NOT outermost is false (finding C08-fletcher-not-outermost-lzf):
+   pipeline [fletcher32; lzf], 40 zero bytes, stored byte 5 changed from 33 to 29: both decoders return
+   36 zero bytes and no error. *)
+Theorem C08_fletcher_inner_refuted :
+  pipeline_apply (fun _ x => x) refuted_fs refuted_x = Ok refuted_stored /\
+  nth 5 refuted_stored 0 = 33 /\
+  pipeline_remove (fun x => Some x) refuted_fs (upd 5 29 refuted_stored) = Ok (repeat 0 36) /\
+  reader_apply (fun x => Some x) (descr refuted_fs) (upd 5 29 refuted_stored) = Ok (repeat 0 36).
+Proof. exact fletcher_inner_refuted. Qed.
+Print Assumptions C08_fletcher_inner_refuted.
